@@ -182,9 +182,12 @@ def decode_byte_runs(buf: bytes, g0: int, probe=None):
 class Recorder:
     """Drives a real stream and records API-level events."""
 
-    def __init__(self, stream, sizeB, probe=None):
+    def __init__(self, stream, sizeB, probe=None, align=None):
         self.probe = probe
         self.s = stream
+        if align:
+            # same effect as DISSECT_STREAM_BUFFER_SIZE: AlignedStream.__init__ only stores the value
+            stream.align = align
         sz = getattr(stream, "size", None)
         self.events = [{"e": "open", "size": int(sz) if sz is not None else -1}]
         self.sizeB = sizeB
